@@ -291,8 +291,5 @@ Proof.
   unfold set_split, conc, c_fresh, c_dcur, c_all.
   cbn [l_file l_indexs l_start l_icur l_flen l_dcur l_cnt l_lterm l_cic l_seek l_dpos l_split
        c_first c_blocks c_part c_z c_flen c_hterm c_da c_lterm c_seek c_dpos c_split concat app].
-  rewrite frl_nil. f_equal. apply lim_ext;
-    cbn [l_file l_indexs l_start l_icur l_flen l_dcur l_cnt l_lterm l_cic l_seek l_dpos l_split
-         c_file c_first c_blocks c_part c_z c_flen c_hterm c_da c_lterm c_seek c_dpos c_split
-         ixs_of ixs_from ienc map concat app]; try reflexivity; try (unfold nlen; cbn [length]; lia).
+  rewrite frl_nil. reflexivity.
 Qed.
